@@ -245,12 +245,12 @@ class World:
         self.loop.chooser.active = flag
 
     # -- server ------------------------------------------------------------
-    def start_server(self, server, host="127.0.0.1", port=2121):
+    def start_server(self, server, host="127.0.0.1", port=2121, **start_kwargs):
         self.loop.current_owner = "server"
         act = self.loop.chooser.active
         self.loop.chooser.active = False
         try:
-            self.run(server.start(host, port))
+            self.run(server.start(host, port, **start_kwargs))
         finally:
             self.loop.chooser.active = act
         return server
@@ -390,11 +390,11 @@ class RawPeer:
         self.world, self.name = world, name
         self.conns = []
 
-    def connect(self, port, host="127.0.0.1"):
+    def connect(self, port, host="127.0.0.1", source_port=None):
         loop = self.world.loop
         proto = RawProtocol()
         with Running(loop):
-            ct = loop._connect_pair(host, port, proto, self.name)
+            ct = loop._connect_pair(host, port, proto, self.name, source_port=source_port)
             proto.connection_made(ct)
         c = RawConn(self.world, ct, proto)
         self.conns.append(c)
